@@ -75,9 +75,58 @@ fn eval_off(prog: &[Instruction], w: &HashMap<&'static str, IrValue>) -> Off {
     }
 }
 
+/// Error class without names, numbers and types (for the distribution table).
+fn coarse(cl: &str) -> String {
+    if cl.ends_with("_not_found") {
+        "not-found".into()
+    } else if cl.ends_with("_already_exists") {
+        "duplicated-name".into()
+    } else if cl.starts_with("type_") {
+        "expecting-type".into()
+    } else if let Some((op, _)) = cl.split_once("_is_not_supported_on_") {
+        format!("unsupported:{}", op.split('(').next().unwrap_or(op))
+    } else {
+        cl.chars().take(32).collect()
+    }
+}
+
 fn err_is_witness_condition(class: &str) -> bool {
     // assertion, range, underflow or encoding condition of the property statement
-    matches!(class, "other:assert" | "other:underflow" | "other:cannot-convert")
+    matches!(class, "other:assert" | "other:underflow" | "other:cannot-convert" | "other:zero-modulus")
+}
+
+/// Names of Jubjub scalars produced by `FromBytes(JubjubScalar)` from 32 bytes or more.
+fn long_scalars(prog: &[Instruction], trace: &[(Vec<IrValue>, Vec<IrValue>)]) -> Vec<String> {
+    let mut out = vec![];
+    for (k, i) in prog.iter().enumerate() {
+        if i.operation == Operation::FromBytes(IrType::JubjubScalar) {
+            if let Some((iv, _)) = trace.get(k) {
+                if let Some(IrValue::Bytes(b)) = iv.first() {
+                    if b.len() >= 32 {
+                        out.extend(i.outputs.clone());
+                    }
+                }
+            }
+        }
+    }
+    out
+}
+
+/// The program with the given names removed from every `Publish` (empty ones dropped).
+fn unpublish(prog: &[Instruction], names: &[String]) -> Vec<Instruction> {
+    prog.iter()
+        .filter_map(|i| {
+            if i.operation != Operation::Publish {
+                return Some(i.clone());
+            }
+            let ins: Vec<String> = i.inputs.iter().filter(|n| !names.contains(n)).cloned().collect();
+            if ins.is_empty() {
+                None
+            } else {
+                Some(Instruction { operation: Operation::Publish, inputs: ins, outputs: vec![] })
+            }
+        })
+        .collect()
 }
 
 pub fn strip_publish(prog: &[Instruction]) -> Vec<Instruction> {
@@ -105,16 +154,36 @@ fn mock(prog: &[Instruction], w: &HashMap<&'static str, IrValue>, inst: Vec<(IrV
     }
 }
 
-pub fn run_case(kind: &str, c: &Case, with_mock: bool) -> Outcome {
+pub fn run_case(c: &Case, with_mock: bool) -> Outcome {
+    let kind = if with_mock { "run" } else { "run0" };
     let body = fmt_case_body(c);
-    let key = format!("{kind}:{body}");
     let mut fails: Vec<(String, String, serde_json::Value)> = vec![];
     let mut tags: Vec<String> = vec![];
+    // The key is the stable identity of the failure class: what fails and its signature
+    // (panic message / error class with numbers masked), not the particular program.
     let mut fail = |what: &str, extra: serde_json::Value| {
+        let sig: String = match &extra {
+            serde_json::Value::String(s) => s.clone(),
+            serde_json::Value::Null => String::new(),
+            other => other.to_string(),
+        };
+        let sig: String = sig
+            .lines()
+            .next()
+            .unwrap_or("")
+            .chars()
+            .map(|ch| if ch.is_ascii_digit() { '#' } else { ch })
+            .take(90)
+            .collect();
+        let key = if what.starts_with("KNOWN-CLASS ") {
+            what["KNOWN-CLASS ".len()..].split(' ').next().unwrap_or("").to_string()
+        } else {
+            format!("C18:{}:{}", what.replace(' ', "-"), sig.replace(' ', "-"))
+        };
         fails.push((
-            key.clone(),
-            what.to_string(),
-            json!({"case": body, "observed": extra, "replay": format!("echo 'run {body}' > /tmp/c18.txt && H_C18_ADHOC=/tmp/c18.txt /verif/harness/target/release/h-c18")}),
+            key,
+            what.trim_start_matches("KNOWN-CLASS ").to_string(),
+            json!({"case": body, "observed": extra, "replay": format!("echo 'run {body}' > /verif/work/C18/replay.txt && H_C18_ADHOC=/verif/work/C18/replay.txt /verif/harness/target/release/h-c18")}),
         ));
     };
     let w = witness_map(c);
@@ -130,7 +199,7 @@ pub fn run_case(kind: &str, c: &Case, with_mock: bool) -> Outcome {
         }
         Ok(Err(e)) => {
             let cl = classify_zkir(&e);
-            tags.push(format!("load-err:{}", cl.split(':').next().unwrap_or("").chars().take(12).collect::<String>()));
+            tags.push("load:wrong-arity".into());
             sections.push(format!("load:{cl}"));
             None
         }
@@ -143,6 +212,7 @@ pub fn run_case(kind: &str, c: &Case, with_mock: bool) -> Outcome {
     if let Some(rel) = rel {
         // 2. off-circuit trace: after each instruction, the values of its inputs and outputs
         let mut trace: Vec<String> = vec![];
+        let mut trace_vals: Vec<(Vec<IrValue>, Vec<IrValue>)> = vec![];
         let mut off_pos_err: Option<(usize, String)> = None;
         for k in 0..c.prog.len() {
             let ins = &c.prog[k];
@@ -161,6 +231,7 @@ pub fn run_case(kind: &str, c: &Case, with_mock: bool) -> Outcome {
                 Off::Ok(vals) => {
                     let vals = &vals[nb_before.min(vals.len())..];
                     let (iv, ov) = vals.split_at(ins.inputs.len().min(vals.len()));
+                    trace_vals.push((iv.to_vec(), ov.to_vec()));
                     trace.push(format!(
                         "{}>{}",
                         iv.iter().map(fmt_val).collect::<Vec<_>>().join(","),
@@ -201,7 +272,7 @@ pub fn run_case(kind: &str, c: &Case, with_mock: bool) -> Outcome {
         sections.push(format!("off:{off_s}"));
         match &off {
             Off::Ok(_) => tags.push("off:ok".into()),
-            Off::Err(cl) => tags.push(format!("off:{}", cl.chars().take(24).collect::<String>())),
+            Off::Err(cl) => tags.push(format!("off:{}", coarse(cl))),
             Off::Panic(_) => tags.push("off:panic".into()),
         }
 
@@ -220,7 +291,7 @@ pub fn run_case(kind: &str, c: &Case, with_mock: bool) -> Outcome {
                 ("panic".to_string(), false)
             }
         };
-        tags.push(format!("cmp:{}", cmp_s.split(':').take(2).collect::<Vec<_>>().join(":").chars().take(28).collect::<String>()));
+        tags.push(format!("cmp:{}", if cmp_ok { "ok".to_string() } else if cmp_s == "panic" { cmp_s.clone() } else { coarse(&cmp_s["err:".len()..]) }));
         sections.push(format!("cmp:{cmp_s}"));
 
         // 4. the public API: public_inputs (off-circuit values zipped with in-circuit types)
@@ -280,17 +351,41 @@ pub fn run_case(kind: &str, c: &Case, with_mock: bool) -> Outcome {
                 (Off::Ok(_), Some(inst), Some(pi)) => {
                     let v = mock(&c.prog, &w, inst.clone(), pi.clone());
                     if v != "sat" {
-                        fail(
-                            "off-circuit evaluation succeeds but the compiled circuit rejects its public inputs",
-                            json!({"mock": v}),
-                        );
+                        // Attribute the rejection to the recorded finding N7 only when it
+                        // disappears once the long Jubjub scalars are no longer published.
+                        let long = long_scalars(&c.prog, &trace_vals);
+                        let reduced = unpublish(&c.prog, &long);
+                        let attributable = !long.is_empty() && reduced != c.prog && {
+                            let w2 = w.clone();
+                            match catch(|| ZkirRelation::from_instructions(&reduced).and_then(|r| r.public_inputs(w2))) {
+                                Ok(Ok(inst2)) => match ZkirRelation::format_instance(&inst2) {
+                                    Ok(pi2) => mock(&reduced, &w, inst2, pi2) == "sat",
+                                    Err(_) => false,
+                                },
+                                _ => false,
+                            }
+                        };
+                        if attributable {
+                            fail(
+                                "KNOWN-CLASS C18:N7-jubjub-scalar-from-32-or-more-bytes-published off-circuit evaluation succeeds but the compiled circuit rejects its public inputs: a Jubjub scalar built by FromBytes from >= 32 bytes is published as its raw bits in-circuit and as its reduced value off-circuit",
+                                json!({"mock": v}),
+                            );
+                        } else {
+                            fail(
+                                "off-circuit evaluation succeeds but the compiled circuit rejects its public inputs",
+                                json!({"mock": v}),
+                            );
+                        }
                     }
                     v
                 }
                 (Off::Err(cl), _, _) => {
                     // no instance exists; drop the Publish instructions so that only the
                     // failing condition can make the circuit unsatisfiable
-                    let v = mock(&strip_publish(&c.prog), &w, vec![], vec![]);
+                    // (and stop after the failing instruction: later values, hash digests in
+                    // particular, are not defined by the off-circuit run)
+                    let upto = off_pos_err.as_ref().map(|(k, _)| k + 1).unwrap_or(c.prog.len());
+                    let v = mock(&strip_publish(&c.prog[..upto]), &w, vec![], vec![]);
                     if v == "panic" {
                         fail("proving panics on a witness the off-circuit interpreter rejects with an error", json!({"off": cl}));
                     } else if v == "sat" && (err_is_witness_condition(cl) || true) {
@@ -303,7 +398,7 @@ pub fn run_case(kind: &str, c: &Case, with_mock: bool) -> Outcome {
                 }
                 _ => "-".to_string(),
             };
-            tags.push(format!("mock:{}", verdict.chars().take(20).collect::<String>()));
+            tags.push(format!("mock:{}", match verdict.split_once("err:") { Some((pre, cl)) => format!("{pre}err:{}", coarse(cl)), None => verdict.clone() }));
             sections.push(format!("mock:{verdict}"));
         } else {
             sections.push("mock:-".into());
